@@ -37,6 +37,19 @@ End to end (string DDL through `create_mock_engine`, judged by a small catalog t
       acyclic one row per table referencing its parents is inserted first, so that SQLite's implicit DELETE of DROP TABLE
       rejects a wrong drop order.
 
+End to end with checkfirst on and a server that is not empty (families `cf*`; the property quantifies over "checkfirst on and off").
+The real `SchemaGenerator` / `SchemaDropper` run with `checkfirst=True` against a catalog double (`catalog_engine`: the dialect's
+has_table / has_multi_table answer from a set of table names that CREATE / DROP TABLE statements update; create_mock_engine itself
+forces checkfirst off).  For every graph and every subset E of its tables that such a server can hold (E closed under references,
+from none to all; a table on the server has all its constraints), three calls, each judged by the clauses above relative to the
+server state before the call:
+  A  create_all(tables=E) on an empty server: exactly the tables of E and their constraints exist afterwards, once each;
+  B  drop_all() with E on the server: only tables of E are dropped, ALTER .. DROP CONSTRAINT names live constraints of tables on the
+     server, nothing of the MetaData is left; CircularDependencyError only for a cycle of unnamed constraints within E;
+  C  create_all() with E on the server: no CREATE TABLE for a table of E, no ALTER .. ADD of a constraint that a table of E has
+     already (a server answers "already exists" for a named one and silently doubles an unnamed one); REFERENCES targets exist
+     (before the call or created earlier in it); afterwards every table and every constraint exists exactly once.
+
 Scope: see coverage.scope.
 """
 import itertools
@@ -106,6 +119,8 @@ def families(tier):
         dict(name="dep3", mode="dep", n=3, off="a3", self_="a1", max_pairs=4 if q else None, filters=F_2),
         dict(name="e2e2", mode="e2e", n=2, off="a10", self_="a5" if q else "a10"),
         dict(name="e2e3", mode="e2e", n=3, off="a5", self_="a1", max_pairs=4 if q else None),
+        dict(name="cf2", mode="cf", n=2, off="a10", self_="a4" if q else "a10"),
+        dict(name="cf3", mode="cf", n=3, off="a4" if q else "a5", self_="a1", max_pairs=4 if q else None),
     ]
     if not q:
         fams += [
@@ -116,6 +131,8 @@ def families(tier):
             dict(name="e2e3wide", mode="e2e", n=3, off="a6", self_="a1"),
             dict(name="e2e3self", mode="e2e", n=3, off="a4na", self_="a3", max_self=1),
             dict(name="e2e4", mode="e2e", n=4, off="a3", self_="a1", max_pairs=5),
+            dict(name="cf3self", mode="cf", n=3, off="a4", self_="a3", max_self=1, max_pairs=4),
+            dict(name="cf4", mode="cf", n=4, off="a4", self_="a1", max_pairs=4),
         ]
     return fams
 
@@ -462,6 +479,51 @@ def real_sqlite(reset=False):
     return _ENG["real"]
 
 
+_CATALOG = set()   # names of the tables that "exist on the server" for catalog_engine()
+
+
+def catalog_engine(name):
+    """a mock connection whose DDL visitors run with the caller's `checkfirst` (create_mock_engine forces it off): the
+    dialect instance answers has_table / has_multi_table from _CATALOG, and CREATE TABLE / DROP TABLE statements that
+    are "executed" update _CATALOG.  Only the server is doubled; SchemaGenerator / SchemaDropper are the real ones."""
+    key = name + "+catalog"
+    if key not in _ENG:
+        from sqlalchemy import create_mock_engine
+        from sqlalchemy.engine.mock import MockConnection
+        url = {"postgresql": "postgresql+psycopg2://", "sqlite": "sqlite://"}[name]
+        dialect = create_mock_engine(url, None).dialect     # a dialect instance of its own
+
+        class CatalogConnection(MockConnection):
+            def _run_ddl_visitor(self, visitorcallable, element, **kwargs):
+                visitorcallable(dialect=self.dialect, connection=self, **kwargs).traverse_single(element)
+
+        def ex(sql, *a, **k):
+            text = str(sql.compile(dialect=dialect))
+            _LOG.append(text)
+            m = RX_CT.match(text)
+            if m:
+                _CATALOG.add(m.group(1))
+            m = RX_DT.match(text)
+            if m:
+                _CATALOG.discard(m.group(1))
+        dialect.has_table = lambda connection, table_name, schema=None, **kw: table_name in _CATALOG
+        dialect.has_multi_table = lambda connection, table_names, schema=None, **kw: [((schema, t), t in _CATALOG) for t in table_names]
+        _ENG[key] = CatalogConnection(dialect, ex)
+    return _ENG[key]
+
+
+def closed_subsets(n, fks, deps=()):
+    """the subsets E of the tables that can exist on a server that enforces referenced-table existence: every table
+    referenced by (or an explicit dependency of) a member of E is in E.  Includes () and all tables."""
+    out = []
+    for k in range(n + 1):
+        for E in itertools.combinations(range(n), k):
+            inE = set(E)
+            if all(j in inE for i, j, slot, kind in fks if i in inE) and all(p in inE for p, t in deps if t in inE):
+                out.append(E)
+    return out
+
+
 RX_CT = re.compile(r"^\s*CREATE TABLE (\w+)")
 RX_FK = re.compile(r"(?:CONSTRAINT (\w+) )?FOREIGN KEY\((\w+)\) REFERENCES (\w+)")
 RX_ADD = re.compile(r"^\s*ALTER TABLE (\w+) ADD (?:CONSTRAINT (\w+) )?FOREIGN KEY\((\w+)\) REFERENCES (\w+)")
@@ -478,7 +540,9 @@ def e2e_graph(n, fks, deps):
     return nodes, fk_edges, unnamed_edges, dep
 
 
-def judge_create(dialect, n, fks, deps, log, exc):
+def judge_create(dialect, n, fks, deps, log, exc, existing=(), target=None):
+    """existing: indices of the tables (with all their constraints) that are on the server before the call;
+    target: indices passed as `tables=` (None: the whole MetaData)"""
     broken, kinds = [], []
 
     def bad(kind, text):
@@ -488,7 +552,12 @@ def judge_create(dialect, n, fks, deps, log, exc):
     if exc is not None:
         bad("create:raise:" + type(exc).__name__, f"create_all raised {type(exc).__name__}: {str(exc)[:160]}")
         return broken, kinds, {}
-    tables, made, order = [], {}, []
+    before = [f"t{i}" for i in existing]
+    want = sorted(set(existing) | set(nodes if target is None else target))
+    tables, made, order = list(before), {}, []
+    for i, j, slot, kind in fks:
+        if i in existing:
+            made[(f"t{i}", f"r{j}_{slot}")] = 1
     seen_alter = False
     for sql in log:
         m = RX_CT.match(sql)
@@ -496,7 +565,9 @@ def judge_create(dialect, n, fks, deps, log, exc):
             name = m.group(1)
             if seen_alter:
                 bad("create:create-after-alter", f"CREATE TABLE {name} after an ALTER TABLE .. ADD")
-            if name in tables:
+            if name in before:
+                bad("create:table-exists", f"CREATE TABLE {name}, which exists already (checkfirst on)")
+            elif name in tables:
                 bad("create:table-twice", f"CREATE TABLE {name} twice")
             for cname, col, ref in RX_FK.findall(sql):
                 if dialect == "postgresql" and ref != name and ref not in tables:
@@ -504,6 +575,7 @@ def judge_create(dialect, n, fks, deps, log, exc):
                         f"(created so far: {tables})")
                 made[(name, col)] = made.get((name, col), 0) + 1
             tables.append(name)
+            order.append(name)
             continue
         m = RX_ADD.match(sql)
         if m:
@@ -513,28 +585,35 @@ def judge_create(dialect, n, fks, deps, log, exc):
                 bad("create:alter-on-dialect-without-alter", f"ALTER emitted on {dialect}: {sql.strip()[:80]}")
             if name not in tables or ref not in tables:
                 bad("create:alter-missing-table", f"ALTER TABLE {name} ADD FOREIGN KEY({col}) REFERENCES {ref}: table missing (have {tables})")
+            if made.get((name, col), 0) and name in before:
+                bad("create:constraint-of-existing-table-added-again", f"ALTER TABLE {name} ADD {'CONSTRAINT ' + cname + ' ' if cname else ''}FOREIGN KEY({col}) "
+                    f"REFERENCES {ref}: {name} existed before the call (checkfirst on) and has this constraint already")
             made[(name, col)] = made.get((name, col), 0) + 1
             continue
         bad("create:unexpected-statement", f"unexpected statement {sql.strip()[:80]}")
-    if sorted(tables) != [f"t{i}" for i in nodes]:
-        bad("create:tables", f"tables created {tables}, expected all of t0..t{n - 1} once")
+    if sorted(tables) != [f"t{i}" for i in want]:
+        bad("create:tables", f"tables on the server {tables} (before the call: {before}), expected each of {[f't{i}' for i in want]} once")
     for i, j, slot, kind in fks:
         c = made.get((f"t{i}", f"r{j}_{slot}"), 0)
-        if c != 1:
-            bad("create:constraint-count", f"constraint {fname((i, j, slot, kind))} rendered {c} times")
-    at = {int(t[1:]): k for k, t in enumerate(tables) if re.fullmatch(r"t\d", t)}
-    if len(at) == n:
-        cyc = on_cycle(nodes, fk_edges + dep)
+        exp = 1 if i in want else 0
+        if c != exp and not (c > 1 and f"t{i}" in before and "create:constraint-of-existing-table-added-again" in kinds):
+            bad("create:constraint-count", f"constraint {fname((i, j, slot, kind))} exists {c} times after the call, expected {exp}")
+    at = {int(t[1:]): k for k, t in enumerate(order) if re.fullmatch(r"t\d", t)}
+    at.update({i: -1 for i in existing})
+    if sorted(at) == want and len(order) == len(set(order)):
+        sub = [i for i in want]
+        cyc = on_cycle(sub, [e for e in fk_edges + dep if e[0] in at and e[1] in at])
         for p, t in dep:
-            if not at[p] < at[t]:
-                bad("create:explicit-dependency-order", f"t{t} depends on t{p} (add_is_dependent_on) but creation order is {tables}")
+            if p in at and t in at and at[t] >= 0 and not at[p] < at[t]:
+                bad("create:explicit-dependency-order", f"t{t} depends on t{p} (add_is_dependent_on) but creation order is {order}")
         for p, t in fk_edges:
-            if t not in cyc and not at[p] < at[t]:
-                bad("create:dependency-of-acyclic-table", f"t{t} (on no cycle) references t{p} but creation order is {tables}")
-    return broken, kinds, dict(order=tables, alters=sum(1 for s in log if RX_ADD.match(s)))
+            if p in at and t in at and at[t] >= 0 and t not in cyc and not at[p] < at[t]:
+                bad("create:dependency-of-acyclic-table", f"t{t} (on no cycle) references t{p} but creation order is {order}")
+    return broken, kinds, dict(order=order, alters=sum(1 for s in log if RX_ADD.match(s)))
 
 
-def judge_drop(dialect, n, fks, deps, log, exc):
+def judge_drop(dialect, n, fks, deps, log, exc, existing=None):
+    """existing: indices of the tables (with all their constraints) on the server before the call (None: all)"""
     from sqlalchemy.exc import CircularDependencyError
     broken, kinds = [], []
 
@@ -542,16 +621,18 @@ def judge_drop(dialect, n, fks, deps, log, exc):
         broken.append(text)
         kinds.append(kind)   # parallel to `broken`
     nodes, fk_edges, unnamed_edges, dep = e2e_graph(n, fks, deps)
+    have = set(nodes if existing is None else existing)
+    inh = lambda edges: [e for e in edges if e[0] in have and e[1] in have]   # noqa: E731
     info = {}
     if exc is not None:
-        if dialect == "postgresql" and isinstance(exc, CircularDependencyError) and on_cycle(nodes, unnamed_edges + dep):
+        if dialect == "postgresql" and isinstance(exc, CircularDependencyError) and on_cycle(nodes, inh(unnamed_edges + dep)):
             info["raised"] = True
         else:
             bad("drop:raise:" + type(exc).__name__, f"drop_all raised {type(exc).__name__}: {str(exc)[:160]}")
         return broken, kinds, info
-    live = {(f"t{i}", f"r{j}_{slot}"): (f"t{j}", kind, (i, j, slot, kind)) for i, j, slot, kind in fks}
+    live = {(f"t{i}", f"r{j}_{slot}"): (f"t{j}", kind, (i, j, slot, kind)) for i, j, slot, kind in fks if i in have}
     byname = {f"fk_{i}_{j}_{slot}": (f"t{i}", f"r{j}_{slot}") for i, j, slot, kind in fks if KINDS[kind][0]}
-    tables = [f"t{i}" for i in nodes]
+    tables = [f"t{i}" for i in nodes if i in have]
     dropped = []
     for sql in log:
         m = RX_DROPC.match(sql)
@@ -563,7 +644,7 @@ def judge_drop(dialect, n, fks, deps, log, exc):
                 bad("drop:alter-after-drop-table", f"ALTER TABLE {name} DROP CONSTRAINT {cname} after DROP TABLE {dropped}")
             key = byname.get(cname)
             if key is None or key not in live or key[0] != name or name not in tables:
-                bad("drop:unknown-constraint", f"ALTER TABLE {name} DROP CONSTRAINT {cname}: no such live constraint")
+                bad("drop:unknown-constraint", f"ALTER TABLE {name} DROP CONSTRAINT {cname}: no such live constraint (tables on the server: {tables})")
             else:
                 del live[key]
             continue
@@ -592,14 +673,15 @@ def judge_drop(dialect, n, fks, deps, log, exc):
     if tables:
         bad("drop:tables-left", f"tables left after drop_all: {tables}")
     info["order"] = dropped
+    info["alters"] = sum(1 for s in log if RX_DROPC.match(s))
     at = {int(t[1:]): k for k, t in enumerate(dropped)}
-    if len(at) == n:
-        for p, t in dep:
-            if dialect == "postgresql" or not on_cycle(nodes, fk_edges + dep):
+    if sorted(at) == sorted(have) and len(dropped) == len(at):
+        for p, t in inh(dep):
+            if dialect == "postgresql" or not on_cycle(nodes, inh(fk_edges + dep)):
                 if not at[t] < at[p]:
                     bad("drop:explicit-dependency-order", f"t{t} depends on t{p} (add_is_dependent_on) but drop order is {dropped}")
-        if dialect != "postgresql" and not on_cycle(nodes, fk_edges + dep):
-            for p, t in fk_edges:
+        if dialect != "postgresql" and not on_cycle(nodes, inh(fk_edges + dep)):
+            for p, t in inh(fk_edges):
                 if not at[t] < at[p]:
                     bad("drop:dependency-order", f"t{t} references t{p} (acyclic graph) but drop order is {dropped}")
     return broken, kinds, info
@@ -691,6 +773,54 @@ def e2e_case(n, fks, deps):
     return fails, info
 
 
+def run_catalog(dialect, m, call, existing_names, tables=None):
+    """one real MetaData.create_all / drop_all with checkfirst=True against the catalog double -> (statements, exception)"""
+    eng = catalog_engine(dialect)
+    _CATALOG.clear()
+    _CATALOG.update(existing_names)
+    del _LOG[:]
+    exc = None
+    try:
+        if tables is None:
+            getattr(m, call)(eng, checkfirst=True)
+        else:
+            getattr(m, call)(eng, checkfirst=True, tables=tables)
+    except Exception as e:
+        exc = e
+    log = list(_LOG)
+    del _LOG[:]
+    return log, exc
+
+
+CF_STEPS = ("A:create_all(tables=E) on an empty server", "B:drop_all() with E on the server", "C:create_all() with E on the server")
+
+
+def e2e_cf_case(n, fks, deps, E):
+    """checkfirst on, server holds the tables E (closed under references): all clauses -> failure descriptors, info"""
+    fails = []
+    m, tabs, lab = build(n, fks, deps=deps)
+    E = list(E)
+    info = {}
+    for dialect in ("sqlite", "postgresql"):          # sqlite first: AddConstraint on postgresql marks constraints as isolated
+        alters = 0
+        steps = [("create_all", (), E), ("drop_all", E, None), ("create_all", E, None)]
+        for step, (call, existing, target) in zip(CF_STEPS, steps):
+            log, exc = run_catalog(dialect, m, call, [f"t{i}" for i in existing], None if target is None else [tabs[i] for i in target])
+            if call == "create_all":
+                b, k, ji = judge_create(dialect, n, fks, deps, log, exc, existing=existing, target=target)
+            else:
+                b, k, ji = judge_drop(dialect, n, fks, deps, log, exc, existing=existing)
+            alters += ji.get("alters", 0)
+            for b1, k1 in by_kind(b, k):
+                fails.append(dict(call=call, dialect=dialect, n=n, fks=fks, deps=[list(d) for d in deps], checkfirst=True, step=step,
+                                  server_before=[f"t{i}" for i in existing], tables_arg=None if target is None else [f"t{i}" for i in target],
+                                  E=E, broken=b1, broken_kinds=k1, statements=[s.strip() for s in log]))
+            if b:
+                break      # later steps start from the state this one should have reached
+        info[dialect] = dict(alters=alters)
+    return fails, info
+
+
 # ----------------------------------------------------------------------------------------------- worker
 def _worker(job):
     H.quiet()
@@ -739,6 +869,19 @@ def _worker(job):
                         res["samples"].append(dict(family=fam["name"], call="create_all+drop_all", fks=[fname(f) for f in fks],
                                                    postgresql_alter_statements=pg.get("alters"), drop_all_circular_error=pg.get("drop_raised"),
                                                    sqlite_rows_inserted=info.get("rows")))
+            continue
+        if mode == "cf":
+            for E in closed_subsets(n, fks):
+                fails, info = e2e_cf_case(n, fks, (), E)
+                res["evaluations"] += 1
+                res["per_family"][fam["name"]] += 1
+                for f in fails:
+                    res["failures"].append(dict(function=FN_E2E + f"/{f['call']}/{f['dialect']}", desc=f))
+                if not fails and (0 < len(E) < n or info["postgresql"]["alters"]):
+                    res["nontrivial"] += 1
+                    if len(res["samples"]) < 1 and 0 < len(E) < n and info["postgresql"]["alters"]:
+                        res["samples"].append(dict(family=fam["name"], call="checkfirst=True: " + "; ".join(CF_STEPS), fks=[fname(f) for f in fks],
+                                                   E=[f"t{i}" for i in E], postgresql_alter_statements=info["postgresql"]["alters"]))
             continue
         if mode == "dep":
             # explicit dependencies through Table.add_is_dependent_on: every single edge, tables rebuilt; also end to end
@@ -841,7 +984,10 @@ def run(run, tier, seed, args):
                        f"(+ sort_tables with skip_fn named), and every set of 2 explicit edges x declared order x filter_fn {fam.get('filters', ['none'])[0]}",
                 "dep": f"every labelled graph x every single Table.add_is_dependent_on edge (tables rebuilt) x ALL input orders x filter_fn in {fam.get('filters')}, + end to end",
                 "e2e": "every labelled graph, tables declared t0..tn: create_all + drop_all (checkfirst=False) through create_mock_engine for sqlite and postgresql, "
-                       "and create_all / insert / drop_all on real SQLite :memory: with foreign_keys=ON"}[fam["mode"]]
+                       "and create_all / insert / drop_all on real SQLite :memory: with foreign_keys=ON",
+                "cf": "every labelled graph, tables declared t0..tn, x every subset E of the tables that is closed under references (the states a server that "
+                      "enforces referenced-table existence can be in; includes none and all), checkfirst=True, for sqlite and postgresql DDL against a catalog "
+                      "double that answers has_table: " + "; ".join(CF_STEPS)}[fam["mode"]]
         lim = "".join([f", at most {fam['max_pairs']} ordered pairs with a constraint" if fam.get("max_pairs") is not None else "",
                        f", at most {fam['max_self']} self-referential table" if fam.get("max_self") is not None else ""])
         scope.append(f"[{fam['name']}] {fam['n']} table(s); per ordered pair of distinct tables the constraints are one of {['+'.join(o) or '-' for o in off]}; "
@@ -852,7 +998,9 @@ def run(run, tier, seed, args):
         rule="every (graph, call, input order, filter, explicit dependencies) combination of the scope is enumerated once, so all evaluations are distinct; "
              "one is non-trivial when the dependency graph seen by the call has a cycle (the cycle-resolution branch runs), or at least one constraint "
              "was deferred to the ALTER list, or CircularDependencyError was (legitimately) raised; for end-to-end cases when PostgreSQL DDL contained "
-             "ALTER statements or drop_all legitimately raised; acyclic graphs without use_alter count as trivial",
+             "ALTER statements or drop_all legitimately raised; for checkfirst cases (one evaluation = one (graph, server state E) pair, 3 calls x 2 "
+             "dialects) when E is a proper non-empty subset of the tables or PostgreSQL DDL contained ALTER statements; acyclic graphs without "
+             "use_alter count as trivial",
         samples=pick_samples(agg.get("samples", [])),
         exhaustive=True,
         scope="kinds: N named, A unnamed, U named use_alter, V unnamed use_alter; every constraint has its own column.  " + "  ".join(scope),
@@ -868,6 +1016,8 @@ def run(run, tier, seed, args):
         "the catalog that judges PostgreSQL DDL enforces only existence of referenced tables at CREATE / ALTER time and absence of referencing "
         "constraints at DROP TABLE time (no CASCADE); a real PostgreSQL server is not contacted",
         "end-to-end cases use use_alter only on named constraints (DROP CONSTRAINT of an unnamed constraint is a documented CompileError)",
+        "checkfirst=True is explored against a catalog double (table existence only; no indexes, sequences or types to check); the server "
+        "states explored are the reference-closed subsets of the MetaData's tables, each table with all of its constraints",
         "SQLite does not enforce table existence at CREATE time; its drop order is only judged with rows present on acyclic graphs (on a cycle the "
         "documented SAWarning says tables are dropped unsorted)",
         "single-column foreign keys to the primary key, no schemas, no Table-via-select dependencies, no indexes / sequences",
@@ -898,6 +1048,8 @@ def report(run, failures):
         seen[cls] = True
         name = f"{d['call']}-{d.get('dialect') or d.get('filter') or d.get('skip_fn')}-n{d['n']}-" + "_".join(fname(x) for x in d["fks"]) + \
                "-o" + "".join(str(i) for i in d.get("order", ())) + "-x" + "".join(f"{p}{t}" for p, t in (d.get("extra") or d.get("deps") or ()))
+        if d.get("checkfirst"):
+            name += f"-checkfirst-step{d['step'][0]}-E" + "".join(str(i) for i in d["E"])
         run.violation(name, dict(function=f["function"], input=d, expected="every contract clause of the module docstring holds",
                                  actual=d["broken"], reason="bounded run-time contract check"))
 
@@ -918,7 +1070,11 @@ def replay(data):
             result, exc = call_stc(tabs, d["order"], d["filter"], extras, via)
             broken, kinds, info = judge_stc(tabs, lab, d["order"], d["filter"], extras, result, exc)
     else:
-        fails, info = e2e_case(n, fks, [tuple(e) for e in d.get("deps", [])])
+        if d.get("checkfirst"):
+            fails, info = e2e_cf_case(n, fks, [tuple(e) for e in d.get("deps", [])], d["E"])
+            fails = [f for f in fails if f["step"] == d["step"]]
+        else:
+            fails, info = e2e_case(n, fks, [tuple(e) for e in d.get("deps", [])])
         broken, kinds = [], []
         for f in fails:
             if f["call"] == call and f["dialect"] == d["dialect"]:
@@ -926,7 +1082,7 @@ def replay(data):
                 kinds += f["broken_kinds"] * len(f["broken"])
     if d.get("broken_kinds"):   # the replay file is about these kinds of broken clause only
         broken = [b for b, k in zip(broken, kinds) if k in d["broken_kinds"]]
-    what = f"{call} n={n} fks={[fname(x) for x in fks]} " + " ".join(f"{k}={d[k]}" for k in ("order", "filter", "skip_fn", "extra", "deps", "dialect") if d.get(k))
+    what = f"{call} n={n} fks={[fname(x) for x in fks]} " + " ".join(f"{k}={d[k]}" for k in ("order", "filter", "skip_fn", "extra", "deps", "dialect", "checkfirst", "E", "step") if d.get(k))
     if broken:
         print(f"REPLAY-FAILS {data.get('function')} {what} broken={broken}")
         return 1
